@@ -202,8 +202,8 @@ Definition flat3 (l : list (nat * nat * nat)) : list Z :=
   flat_map (fun '(a, b, c) => [Z.of_nat a; Z.of_nat b; Z.of_nat c]) l.
 
 (* ---- the guard of the proved bisimulation ------------------------------------------------ *)
-(* operations for which C16_bisim is proved; the others (logs, access list; CreateAccount over an
-   existing account, see create_fresh) are covered by the three-way correspondence only *)
+(* operations for which C16_bisim is proved: all of them; CreateAccount only for accounts that do
+   not exist yet (see create_fresh), re-creation is covered by the three-way correspondence only *)
 Definition core_op (o : op) : bool :=
   match o with
   | SubBalance _ _ | AddBalance _ _ | GetBalance _ | GetNonce _ | SetNonce _ _
@@ -211,8 +211,8 @@ Definition core_op (o : op) : bool :=
   | AddRefund _ | SubRefund _ | GetRefund
   | GetCommittedState _ _ | GetState _ _ | SetState _ _ _
   | Suicide _ | HasSuicided _ | Exist _ | Empty _
-  | Snapshot | RevertToSnapshot _ | Finalise | BlockCommit | CreateAccount _ => true
-  | _ => false
+  | Snapshot | RevertToSnapshot _ | Finalise | BlockCommit | CreateAccount _
+  | AlAddAddr _ | AlAddSlot _ _ | AlHasAddr _ | AlHasSlot _ _ | AddLog _ _ | GetLogs => true
   end.
 (* a revert that the adapter survives with its dirties index intact (complement of
    C16.stale_dirty_index, which also covers the panic inside such a revert) *)
@@ -263,3 +263,7 @@ Fixpoint client_guard (fuel : nat) (strat : list out -> option op) (a : astate) 
            | Some o => pstep_ok a o && let '(r, a') := astep a o in client_guard f strat a' (hist ++ [r])
            end
   end.
+
+(* how many recorded cases lie inside the scope of C16_bisim (the proof guard holds along the whole run) *)
+Definition count_pguarded (cs : list case) : nat :=
+  length (filter (fun c => pguardedb (a_init (c_start c)) (c_ops c) = true) cs).
